@@ -161,6 +161,8 @@ struct Case {
     default_timeout_ms: u32,
     delays: Vec<(&'static str, u64)>,
     label: String,
+    /// the child exits by itself, but only this many ms after its timeout has expired
+    late_exit_ms: Option<u64>,
 }
 
 // ---------------------------------------------------------------------------
@@ -281,7 +283,7 @@ fn tame_delays(case: &mut Case) {
 }
 
 fn base_case(plan: Plan, po: Pol, pe: Pol, cap: u32, label: &str) -> Case {
-    Case { plan, po, pe, cap, poll_ms: 10, timeout_ms: None, default_timeout_ms: 900_000, delays: Vec::new(), label: label.to_string() }
+    Case { plan, po, pe, cap, poll_ms: 10, timeout_ms: None, default_timeout_ms: 900_000, delays: Vec::new(), label: label.to_string(), late_exit_ms: None }
 }
 
 fn one_write(n: u64) -> StreamPlan {
@@ -289,7 +291,8 @@ fn one_write(n: u64) -> StreamPlan {
 }
 
 const MATRIX: u64 = 9 * 3 * 5;
-const DIRECTED: u64 = 48;
+const DIRECTED: u64 = 48 + LATE_EXIT;
+const LATE_EXIT: u64 = 8;
 pub const MATRIX_STAGE_COUNT: u64 = MATRIX + DIRECTED;
 
 fn matrix_case(rng: &mut Rng, idx: u64) -> Case {
@@ -314,6 +317,20 @@ fn matrix_case(rng: &mut Rng, idx: u64) -> Case {
         let plan = Plan { out: one_write(a), err: one_write(b), linger_ms: 0, end: End::Exit(code) };
         let mut c = base_case(plan, po, pe, cap, &format!("matrix.{}", ["under", "at", "over"][rel as usize]));
         c.poll_ms = rng.range(1, 20) as u32;
+        return c;
+    }
+    if idx >= MATRIX + 48 {
+        // The child runs past its timeout and then exits by itself (it lingers `late` ms longer):
+        // the wait loop must notice the deadline, not the exit that follows it.
+        let j = idx - MATRIX - 48;
+        // deadlines spread over 0.2-1.3 s: an implementation that polls with growing or coarse
+        // intervals has its gaps at different places
+        let timeout = [330u64, 650, 970, 1290, 200, 450, 800, 1100][(j % 8) as usize];
+        let late = 200u64;
+        let pol = if j % 2 == 0 { Pol::Capture } else { Pol::Null };
+        let mut c = base_case(Plan { out: one_write(10), err: one_write(10), linger_ms: timeout + late, end: End::Exit(0) }, pol, pol, 4096, "directed.exits_by_itself_after_the_timeout");
+        c.timeout_ms = Some(timeout);
+        c.late_exit_ms = Some(late);
         return c;
     }
     // directed schedules
@@ -497,6 +514,19 @@ fn script_of(vhelper: &str, plan_path: &str, c: &Case, style: usize) -> String {
             s.push_str("make r get rs[0]\n");
             s.push_str(SHOW_R);
         }
+        4 => {
+            // the result is first bound to a local of the loop body, then stored outside it
+            s.push_str("make rs get []\nmake zz_i get 0\njasi (zz_i small pass 1) start\n    zz_i get zz_i add 1\n    make res get c.run()\n    rs.push(res)\nend\n");
+            s.push_str(CHURN);
+            s.push_str("make r get rs[0]\n");
+            s.push_str(SHOW_R);
+        }
+        5 => {
+            // bound to a local of a function and returned through it
+            s.push_str("do zz_go() start\n    make res get c.run()\n    make again get res\n    return again\nend\nmake r get zz_go()\n");
+            s.push_str(CHURN);
+            s.push_str(SHOW_R);
+        }
         _ => {
             s.push_str("make r get c.run()\n");
             s.push_str(SHOW_R);
@@ -585,7 +615,7 @@ fn run_case(ctx: &mut Ctx, e: &Endings, vhelper: &str, scratch: &str, stage: &st
         return;
     }
     let _ = std::fs::remove_file(&pid_path);
-    let style = Rng::new(util::case_seed(ctx.seed, &format!("proccap-style-{stage}"), idx)).weighted(&[4, 2, 2, 2]);
+    let style = Rng::new(util::case_seed(ctx.seed, &format!("proccap-style-{stage}"), idx)).weighted(&[4, 2, 2, 2, 2, 2]);
     let src = script_of(vhelper, &plan_path, &case, style);
     let mut caps = ProcessCaps::defaults();
     caps.max_capture_bytes_per_stream = case.cap;
@@ -665,6 +695,35 @@ fn run_case(ctx: &mut Ctx, e: &Endings, vhelper: &str, scratch: &str, stage: &st
     let bad_err = cap_err && std::str::from_utf8(&want_err).is_err();
     let multibyte = !case.plan.out.patches.is_empty() || !case.plan.err.patches.is_empty();
     let hang = case.plan.end == End::Hang;
+    if let Some(late) = case.late_exit_ms {
+        // allowed: the timeout error. An ordinary result means the deadline went unnoticed for
+        // `late` ms; that can be a descheduled wait loop once, so the case is run three times.
+        if ending == e.timeout {
+            ctx.out.tag("verdict.late_exit_reported_as_timeout");
+            ctx.out.nontrivial(util::hash64(format!("late|{idx}").as_bytes()));
+            return;
+        }
+        if ending != "ok" {
+            ctx.out.fail(idx, &format!("wrong-error|{ending}"), json!({"late_exit_ms": late}), replay);
+            return;
+        }
+        let mut ok_again = 0;
+        for _ in 0..2 {
+            let policy = HostPolicy { allow_process: true, process: caps };
+            verif::proc_log_start(&case.delays);
+            let r = util::guarded(|| pipeline::run_source_with_policy(&src, RunCfg::default(), policy));
+            let _ = verif::proc_log_take();
+            if matches!(r, Ok(ref x) if x.ending == "ok") {
+                ok_again += 1;
+            }
+        }
+        if ok_again == 2 {
+            ctx.out.fail(idx, "timeout-expired-unnoticed", json!({"timeout_ms": case.timeout_ms, "child_exits_ms_after_timeout": late, "runs": 3, "ordinary_results": 3}), replay);
+        } else {
+            ctx.out.inconclusive(idx, "late exit reported as an ordinary result once (descheduled wait loop?)", json!({"late_exit_ms": late}));
+        }
+        return;
+    }
     let mut allowed: Vec<&str> = Vec::new();
     if hang {
         allowed.push(e.timeout);
